@@ -1,8 +1,10 @@
 package main
 
 import (
+	"bytes"
 	"fmt"
 	"go/ast"
+	"go/printer"
 	"go/token"
 	"sort"
 	"strconv"
@@ -21,6 +23,12 @@ import (
 //	               `applied = f(..) || applied` has the call on the LEFT (never short-circuited).
 //	collector_*    collectorPubSubCalls: skips the collector endpoint itself; action arm merges into the named endpoint.
 //	merge_copies   mergeAttrs stores copies: no `dst[k] = v` / append(.., v.Elt...) of the source's own pointers.
+//	prec_shape     the statements of addAttrWithPrecedence (go/printer text of the body, one entry per line): the
+//	               patterns arm, the keep-first-non-empty arm with its type switch over string / array values, the store.
+//	inplace_*      in-place tuples: EnterInplace_tuple pushes the (already unescaped) field name as it is;
+//	               ExitInplace_tuple restores the field map of the parent whether it is a tuple or a relation
+//	               (attributesForType); ExitField looks the array item up under the unescaped name; ExitInplace_tuple cuts
+//	               the field-name stack back to its length at EnterInplace_tuple (nested names do not reach ExitTable).
 func init() { register("ListenerState", listenerState) }
 
 func lsClassify(recv, field string, rhs ast.Expr) string {
@@ -337,6 +345,84 @@ func listenerState(repo string) (string, error) {
 		}
 		return true
 	})
-	fmt.Fprintf(&sb, "Definition merge_copies : bool := %s.\n", lsBool(copies && stores >= 3))
+	fmt.Fprintf(&sb, "Definition merge_copies : bool := %s.\n\n", lsBool(copies && stores >= 3))
+
+	// ---- addAttrWithPrecedence: the statements, as printed by go/printer
+	pf := ptFindFunc(lis.file, "addAttrWithPrecedence")
+	if pf == nil {
+		return "", fmt.Errorf("addAttrWithPrecedence not found")
+	}
+	var pb bytes.Buffer
+	if err := printer.Fprint(&pb, lis.fset, pf.Body); err != nil {
+		return "", err
+	}
+	var plines []string
+	for _, l := range strings.Split(pb.String(), "\n") {
+		if l = strings.TrimSpace(l); l != "" && !strings.HasPrefix(l, "//") {
+			plines = append(plines, coqStr(l))
+		}
+	}
+	fmt.Fprintf(&sb, "Definition prec_shape : list string :=\n  [%s].\n\n", strings.Join(plines, ";\n   "))
+
+	// ---- in-place tuples
+	method := func(name string) *ast.FuncDecl {
+		for _, fd := range funcDecls(lis.file) {
+			if recvName(fd) == "TreeShapeListener" && fd.Name.Name == name && fd.Body != nil {
+				return fd
+			}
+		}
+		return nil
+	}
+	text := func(n ast.Node) string {
+		var b bytes.Buffer
+		printer.Fprint(&b, lis.fset, n)
+		return strings.Join(strings.Fields(b.String()), " ")
+	}
+	pushRaw, restores, exitName := false, false, false
+	if fd := method("EnterInplace_tuple"); fd != nil {
+		for _, c := range lsCalls(fd.Body, "Push") {
+			if len(c.Args) == 1 {
+				pushRaw = text(c.Args[0]) == "s.fieldname[len(s.fieldname)-1]"
+			}
+		}
+	}
+	if fd := method("ExitInplace_tuple"); fd != nil {
+		ast.Inspect(fd.Body, func(n ast.Node) bool {
+			if as, ok := n.(*ast.AssignStmt); ok && len(as.Lhs) == 1 && len(as.Rhs) == 1 && text(as.Lhs[0]) == "s.typemap" {
+				restores = text(as.Rhs[0]) == "attributesForType(s.currentApp().Types[s.currentTypePath.Get()])"
+			}
+			return true
+		})
+	}
+	if fd := method("ExitField"); fd != nil {
+		ast.Inspect(fd.Body, func(n ast.Node) bool {
+			if as, ok := n.(*ast.AssignStmt); ok && len(as.Lhs) == 1 && len(as.Rhs) == 1 && text(as.Lhs[0]) == "name" && as.Tok == token.ASSIGN {
+				exitName = text(as.Rhs[0]) == "MustUnescape(ctx.Name_str().GetText())"
+			}
+			return true
+		})
+	}
+	fmt.Fprintf(&sb, "Definition inplace_push_as_is : bool := %s.\n", lsBool(pushRaw))
+	fmt.Fprintf(&sb, "Definition inplace_exit_restores_any_parent : bool := %s.\n", lsBool(restores))
+	fmt.Fprintf(&sb, "Definition inplace_array_name_unescaped : bool := %s.\n", lsBool(exitName))
+	truncates := false
+	if fd := method("ExitInplace_tuple"); fd != nil {
+		ast.Inspect(fd.Body, func(n ast.Node) bool {
+			if as, ok := n.(*ast.AssignStmt); ok && len(as.Lhs) == 1 && len(as.Rhs) == 1 && text(as.Lhs[0]) == "s.fieldname" {
+				truncates = text(as.Rhs[0]) == "s.fieldname[:s.inplaceFieldnameLen[top]]"
+			}
+			return true
+		})
+	}
+	pushesLen := false
+	if fd := method("EnterInplace_tuple"); fd != nil {
+		ast.Inspect(fd.Body, func(n ast.Node) bool {
+			if as, ok := n.(*ast.AssignStmt); ok && len(as.Lhs) == 1 && len(as.Rhs) == 1 && text(as.Lhs[0]) == "s.inplaceFieldnameLen" {
+				pushesLen = text(as.Rhs[0]) == "append(s.inplaceFieldnameLen, len(s.fieldname))"
+			}
+			return true
+		})
+	}
+	fmt.Fprintf(&sb, "Definition inplace_exit_cuts_names : bool := %s.\n", lsBool(truncates && pushesLen))
 	return sb.String(), nil
 }
